@@ -134,7 +134,9 @@ def unit_set(ctx):
     chunk = ctx.choose("chunk", list(range(nchunks(n, d))))
     kind = ctx.choose("spec", SPEC_KINDS)
     tsel = ctx.choose("target", [0, 1, 2, 3])
-    route = ctx.choose("route", ["setter", "ctor", "ctor-valid"])
+    # "setter-valid": the norm is set on a field that already carries a validity mask flagging non-zero cells invalid:
+    # "every cell whose vector was non-zero" has no exception for cells that are not valid
+    route = ctx.choose("route", ["setter", "ctor", "ctor-valid", "setter-valid"])
     mesh = mk_mesh(n)
     arr, cls, cells = fill(n, d, chunk)
     # targets per cell
@@ -167,6 +169,11 @@ def unit_set(ctx):
         ctx.step(1, f"field.norm = <{kind}>")
         f.norm = spec
         expvalid = np.ones(n, dtype=bool)
+    elif route == "setter-valid":
+        f = df.Field(mesh, nvdim=d, value=given, valid=valid.copy(), unit="A/m")
+        ctx.step(1, f"masked field.norm = <{kind}>")
+        f.norm = spec
+        expvalid = valid
     elif route == "ctor":
         ctx.step(1, f"Field(value=..., norm=<{kind}>)")
         f = df.Field(mesh, nvdim=d, value=given, norm=spec, unit="A/m")
@@ -185,7 +192,7 @@ def unit_set(ctx):
     ctx.check()
     if not C.same_bytes(given, arr):
         ctx.fail("Field.norm-set/value-specification-modified", "the array given as value was changed", instance=inst)
-    if route == "ctor-valid":
+    if route in ("ctor-valid", "setter-valid"):
         ctx.check()
         if not np.array_equal(np.asarray(f.valid).astype(bool), expvalid):
             ctx.fail("Field.norm-set/validity-not-as-given", "validity passed with norm= is not the one stored", instance=inst)
